@@ -577,352 +577,4 @@ theorem ident_subst_sat (hT : L.tablesTotalB = true) (hM : M.Interp L) (hi : L.i
   simp only [eval] at hp ⊢
   rw [h1, h2]; exact ⟨hp, hp⟩
 
-/-! ### the step theorem -/
-
-/-- the decidable side conditions of the soundness theorem (per-logic obligations) -/
-structure LogicData.SoundOK (L : LogicData) : Prop where
-  total : L.tablesTotalB = true
-  rules : L.unsoundRules = []
-  closure : L.unsoundClosure = []
-  frames : L.frameRulesOKB = true
-  ident : L.identOKB = true
-  trunk : L.trunkOKB = true
-  vocab : L.vocabOKB = true
-
-/-- no quantifier rules in the table (temporary restriction of the generic theorem) -/
-def LogicData.noQuantRules (L : LogicData) : Bool :=
-  L.rules.all fun (k, _) => match k.shape with | .quant _ => false | _ => true
-
-theorem instAdds_not_closure {whole l : Sent} {r raw : Option Sent} {var : Nat × Nat} {w wo : Option Nat}
-    {br : List AddT} {g : List Node} (h : instAdds whole l r raw var w wo br = some g) :
-    ∀ n ∈ g, n.isClosure = false := by
-  intro n hn
-  obtain ⟨ad, _, hf⟩ := mapOpt_mem_bwd h n hn
-  cases ad with
-  | access =>
-    simp only at hf
-    split at hf
-    · simp at hf; subst hf; rfl
-    · cases hf
-  | node nt =>
-    simp only at hf
-    split at hf
-    · cases hf
-    · split at hf
-      · split at hf
-        · simp at hf; subst hf; rfl
-        · cases hf
-      · simp at hf; subst hf; rfl
-
-theorem groups_not_closure {whole l : Sent} {r raw : Option Sent} {var : Nat × Nat} {w wo : Option Nat}
-    {brs : List (List AddT)} {gs : List (List Node)}
-    (h : mapOpt (instAdds whole l r raw var w wo) brs = some gs) :
-    ∀ g ∈ gs, ∀ n ∈ g, n.isClosure = false := by
-  intro g hg
-  obtain ⟨br, _, hf⟩ := mapOpt_mem_bwd h g hg
-  exact instAdds_not_closure hf
-
-theorem getElem?_mem_nodes {b : Branch} {n : Nat} {nd : Node} (h : b.nodes[n]? = some nd) : nd ∈ b.nodes :=
-  List.mem_of_getElem? h
-
-theorem rule_mem_of_rule? {k : RuleKey} {r : Rule} (h : L.rule? k = some r) : (k, r) ∈ L.rules :=
-  lookup_mem h
-
-theorem vocab_modal (hv : L.vocabOKB = true) {k : RuleKey} {r : Rule} (h : L.rule? k = some r)
-    {o : Op1} (hk : k.shape = .op1 o) (ho : o.isModal = true) : L.modal = true := by
-  have := (List.all_eq_true.1 hv) _ (rule_mem_of_rule? h)
-  simp [hk, ho] at this; exact this
-
-theorem noQuant_shape (hq : L.noQuantRules = true) {k : RuleKey} {r : Rule} (h : L.rule? k = some r)
-    {q : Quant} : k.shape ≠ .quant q := by
-  intro hk
-  have := (List.all_eq_true.1 hq) _ (rule_mem_of_rule? h)
-  simp [hk] at this
-
-/-- a table-rule step on a satisfied branch has a satisfied extension -/
-theorem rule_ext_sat (hL : L.SoundOK) (hnq : L.noQuantRules = true) (hM : M.Interp L)
-    {b : Branch} {s : Sent} {d : Option Bool} {w : Option Nat} {c : Option (Nat × Nat)} {wo : Option Nat}
-    {r : Rule} {gs : List (List Node)}
-    (hnode : Node.sent s d w ∈ b.nodes)
-    (hg : L.ruleGroups b s d w c wo = some (r, gs))
-    (e : Env M.D) (σ : Nat → M.W) (hsb : SatB L M e σ b) :
-    (∀ g ∈ gs, ∀ n ∈ g, n.isClosure = false) ∧
-    ∃ (e' : Env M.D) (σ' : Nat → M.W), SatB L M e' σ' b ∧ ∃ g ∈ gs, ∀ n ∈ g, satNode L M e' σ' n := by
-  unfold LogicData.ruleGroups at hg
-  split at hg
-  · cases hg
-  · next sh ng whole hd =>
-    split at hg
-    · next r' l0 hr hl0 =>
-      split at hg
-      · cases hg
-      · next hmodw =>
-        split at hg
-        · next gs' hwg =>
-          simp at hg
-          obtain ⟨rfl, rfl⟩ := hg
-          have hsound := ruleSound_of_nil hL.rules hr
-          have hshape := decomp_shape hd
-          cases sh with
-          | quant q => exact absurd rfl (noQuant_shape hnq hr (q := q))
-          | op2 o =>
-            have hwn : r'.witness = .none := by
-              simp only [LogicData.ruleSoundB, Bool.and_eq_true, beq_iff_eq] at hsound; exact hsound.1
-            unfold witnessGroups at hwg
-            simp only [hwn] at hwg
-            split at hwg
-            · cases hwg
-            · refine ⟨groups_not_closure hwg, e, σ, hsb, ?_⟩
-              exact op_rule_sound hL.total hM hd (by simp [Shape.isTF]) hsound hl0 _ _ hwg e σ (hsb _ hnode)
-          | op1 o =>
-            by_cases hmo : o.isModal = true
-            · -- modal rule
-              have hm := vocab_modal hL.vocab hr rfl hmo
-              simp [Shape.isModalShape, hmo] at hmodw
-              obtain ⟨w0, rfl⟩ := Option.isSome_iff_exists.1 (by cases w <;> simp_all : w.isSome = true)
-              cases whole <;> simp [Shape.of] at hshape
-              rename_i o' A
-              obtain rfl := hshape.symm
-              simp [Sent.lhs?] at hl0; subst hl0
-              unfold witnessGroups at hwg
-              cases hw : r'.witness with
-              | none =>
-                simp only [hw] at hwg
-                split at hwg
-                · cases hwg
-                · next hcw =>
-                  simp at hcw
-                  obtain ⟨_, rfl⟩ : c = none ∧ wo = none := by
-                    cases c <;> cases wo <;> simp_all
-                  refine ⟨groups_not_closure hwg, ?_⟩
-                  obtain ⟨σ', h1, h2⟩ := modal_rule_sound hL.total hM hm hmo hd hsound b hnode _ none
-                    (by simp [hw]) (by simpa [Sent.rhs?, Sent.qraw] using hwg) e σ hsb
-                  exact ⟨e, σ', h1, h2⟩
-              | newWorld =>
-                simp only [hw] at hwg
-                split at hwg
-                · next _ w' w0' hw' =>
-                  split at hwg
-                  · cases hwg
-                  · next hcond =>
-                    simp at hcond
-                    refine ⟨groups_not_closure hwg, ?_⟩
-                    obtain ⟨σ', h1, h2⟩ := modal_rule_sound hL.total hM hm hmo hd hsound b hnode _ (some w')
-                      (by simp [hw]; exact hcond.1) hwg e σ hsb
-                    exact ⟨e, σ', h1, h2⟩
-                · cases hwg
-              | eachWorld =>
-                simp only [hw] at hwg
-                split at hwg
-                · next _ w' w0' hw' =>
-                  split at hwg
-                  · cases hwg
-                  · next hcond =>
-                    simp at hcond
-                    simp at hw'; subst hw'
-                    refine ⟨groups_not_closure hwg, ?_⟩
-                    obtain ⟨σ', h1, h2⟩ := modal_rule_sound hL.total hM hm hmo hd hsound b hnode _ (some w')
-                      (by simp [hw]; simpa [Branch.hasAccess] using hcond.1) hwg e σ hsb
-                    exact ⟨e, σ', h1, h2⟩
-                · cases hwg
-              | newConst =>
-                exfalso
-                have hn := hsb _ hnode
-                simp only [LogicData.ruleSoundB, hmo, ↓reduceIte, hw, List.all_eq_true, Bool.or_false,
-                  Bool.not_eq_true'] at hsound
-                have := hsound _ (mProfiles_mem hM hL.total e (σ w0) A)
-                simp only [satNode, Option.getD_some] at hn
-                rw [eval_decomp hd, eval_modal hm e _ o hmo A] at hn
-                simp [LogicData.nodeSatM, hn] at this
-              | eachConst =>
-                exfalso
-                have hn := hsb _ hnode
-                simp only [LogicData.ruleSoundB, hmo, ↓reduceIte, hw, List.all_eq_true, Bool.or_false,
-                  Bool.not_eq_true'] at hsound
-                have := hsound _ (mProfiles_mem hM hL.total e (σ w0) A)
-                simp only [satNode, Option.getD_some] at hn
-                rw [eval_decomp hd, eval_modal hm e _ o hmo A] at hn
-                simp [LogicData.nodeSatM, hn] at this
-            · have hmo' : o.isModal = false := by simpa using hmo
-              have hwn : r'.witness = .none := by
-                simp only [LogicData.ruleSoundB, hmo', Bool.false_eq_true, ↓reduceIte, Bool.and_eq_true,
-                  beq_iff_eq] at hsound
-                exact hsound.1
-              unfold witnessGroups at hwg
-              simp only [hwn] at hwg
-              split at hwg
-              · cases hwg
-              · refine ⟨groups_not_closure hwg, e, σ, hsb, ?_⟩
-                exact op_rule_sound hL.total hM hd (by simp [Shape.isTF, hmo']) hsound hl0 _ _ hwg e σ (hsb _ hnode)
-        · cases hg
-    · cases hg
-
-theorem closeB_eq (b : Branch) : closeB b = b.extend [.flag "closure"] none := rfl
-
-/-- every legal step preserves "some open branch is satisfied" -/
-theorem step_sound (hL : L.SoundOK) (hnq : L.noQuantRules = true) (hM : M.Interp L)
-    {t t' : Tableau} (s : Step) (hs : applyStep L t s = some t') (h : SatT L M t) : SatT L M t' := by
-  unfold applyStep at hs
-  split at hs
-  · cases hs
-  · next b hb =>
-    split at hs
-    · cases hs
-    · next hbc =>
-      have hbc : b.closed = false := by simpa using hbc
-      cases s with
-      | rule bi n c wo =>
-        simp only [applyAt, Step.branch] at hs hb
-        split at hs
-        · next sn d w hnd =>
-          split at hs
-          · next r g0 rest hg =>
-            simp at hs; subst hs
-            have hnode := getElem?_mem_nodes hnd
-            have hall := fun e σ hsb => rule_ext_sat (M := M) hL hnq hM hnode hg e σ hsb
-            -- closure-freeness does not depend on the interpretation; get it from any satisfied branch, or directly
-            obtain ⟨e0, σ0, b0, hb0, hc0, hs0⟩ := h
-            by_cases hne : b0 = b
-            · subst hne
-              exact satT_fork hb hbc (hall e0 σ0 hs0).1 (fun e σ hsb => (hall e σ hsb).2) ⟨e0, σ0, b0, hb0, hc0, hs0⟩
-            · exact ⟨e0, σ0, b0, mem_fork_other hb hb0 hne, hc0, hs0⟩
-          · cases hs
-        · cases hs
-      | close bi sn w =>
-        simp only [applyAt, Step.branch] at hs hb
-        split at hs
-        · next hcl =>
-          simp at hs; subst hs
-          exact satT_set_other hb (closing_unsat hL.total hM hL.closure (by simpa using hcl)) h
-        · cases hs
-      | closeIdent bi n =>
-        simp only [applyAt, Step.branch] at hs hb
-        split at hs
-        · next nd hnd =>
-          split at hs
-          · next hic =>
-            simp at hs; subst hs
-            refine satT_set_other hb ?_ h
-            have hmem := getElem?_mem_nodes hnd
-            unfold LogicData.identCloses at hic
-            split at hic
-            · next p x y d w =>
-              simp only [Bool.and_eq_true, beq_iff_eq, bne_iff_ne, ne_eq] at hic
-              obtain ⟨⟨⟨hc, rfl⟩, rfl⟩, hd⟩ := hic
-              exact selfId_unsat hM hL.ident hc hd hmem
-            · next p x d w =>
-              simp only [Bool.and_eq_true, beq_iff_eq, bne_iff_ne, ne_eq] at hic
-              obtain ⟨⟨hc, rfl⟩, hd⟩ := hic
-              exact nonExist_unsat hM hL.ident hc hd hmem
-            · cases hic
-          · cases hs
-        · cases hs
-      | frame bi r w1 w2 w3 =>
-        simp only [applyAt, Step.branch] at hs hb
-        split at hs
-        · cases hs
-        · next hfa =>
-          have hfa : L.frameAllowed r = true := by simpa using hfa
-          split at hs
-          · next nd hfr =>
-            simp at hs; subst hs
-            have := frame_step_sound hM hL.frames hb hbc hfa w1 w2 w3 h
-            unfold frameAdd at hfr
-            cases r <;> simp only at hfr this <;> split at hfr <;> simp at hfr <;> subst hfr
-            · next hw => exact this (by simpa using hw)
-            · next hw => simp [Branch.hasAccess] at hw; exact this hw.1 hw.2
-            · next hw => simp [Branch.hasAccess] at hw; exact this hw
-            · next hw => simp at hw; exact this hw.1 hw.2
-          · cases hs
-      | ident bi i p =>
-        simp only [applyAt, Step.branch] at hs hb
-        split at hs
-        · cases hs
-        · next hcond =>
-          simp at hcond
-          split at hs
-          · next ni np hni hnp =>
-            split at hs
-            · next nd hid =>
-              simp at hs; subst hs
-              have hmi := getElem?_mem_nodes hni
-              have hmp := getElem?_mem_nodes hnp
-              unfold identAdd at hid
-              split at hid
-              · next q pa pb w pr ps w' =>
-                split at hid
-                · cases hid
-                · next hc2 =>
-                  simp at hc2
-                  obtain ⟨⟨rfl, _⟩, rfl⟩ := hc2
-                  refine satT_set hb hbc ?_ ?_ h
-                  · intro n hn
-                    split at hid
-                    · simp at hid; subst hid; simp at hn; subst hn; rfl
-                    · split at hid
-                      · simp at hid; subst hid; simp at hn; subst hn; rfl
-                      · cases hid
-                  · intro e σ hsb
-                    refine ⟨e, σ, hsb, ?_⟩
-                    have := ident_subst_sat hL.total hM hL.ident hcond.1 e σ (hsb _ hmi) (hsb _ hmp)
-                    intro n hn
-                    split at hid
-                    · simp at hid; subst hid; simp at hn; subst hn; exact this.1
-                    · split at hid
-                      · simp at hid; subst hid; simp at hn; subst hn; exact this.2
-                      · cases hid
-              · cases hid
-            · cases hs
-          · cases hs
-      | quit bi name tick =>
-        simp only [applyAt, Step.branch] at hs hb
-        split at hs
-        · cases hs
-        · next hname =>
-          simp at hs; subst hs
-          refine satT_set hb hbc ?_ ?_ h
-          · intro n hn; simp at hn; subst hn; simpa [Node.isClosure] using hname
-          · intro e σ hsb; exact ⟨e, σ, hsb, by intro n hn; simp at hn; subst hn; trivial⟩
-
-/-- soundness along any derivation -/
-theorem deriv_sound (hL : L.SoundOK) (hnq : L.noQuantRules = true) (hM : M.Interp L)
-    {t t' : Tableau} (hd : Deriv L t t') (h : SatT L M t) : SatT L M t' := by
-  induction hd with
-  | refl => exact h
-  | step s hs _ ih => exact ih (step_sound hL hnq hM s hs h)
-
-theorem not_satT_of_allClosed {t : Tableau} (hc : t.allClosed = true) : ¬ SatT L M t := by
-  rintro ⟨e, σ, b, hb, hbc, _⟩
-  have := (List.all_eq_true.1 hc) b hb
-  rw [hbc] at this; cases this
-
-/-- a countermodel satisfies the trunk -/
-theorem trunk_sat (hL : L.SoundOK) (hM : M.Interp L) (arg : Argument) (e : Env M.D) (w0 : M.W)
-    (hc : Countermodel L M e w0 arg) : SatT L M (trunk L arg) := by
-  have htr := hL.trunk
-  simp only [LogicData.trunkOKB, Bool.and_eq_true, bne_iff_ne, ne_eq] at htr
-  obtain ⟨hprem, hconc⟩ := htr
-  refine ⟨e, fun _ => w0, _, List.mem_singleton.2 rfl, ?_, ?_⟩
-  · simp [Branch.closed, Node.isClosure]
-  · intro n hn
-    simp only [List.mem_append, List.mem_map, List.mem_singleton] at hn
-    rcases hn with ⟨p, hp, rfl⟩ | rfl
-    · simp only [satNode]
-      rw [satV_not_false hprem]
-      exact hc.1 p hp
-    · simp only [satNode]
-      split at hconc
-      · next hneg =>
-        simp only [Bool.and_eq_true, bne_iff_ne, ne_eq, List.all_eq_true, Bool.or_eq_true] at hconc
-        rw [if_pos hneg, satV_not_false hconc.1, eval_neg]
-        have hv := eval_mem_vals L hL.total M hM arg.conclusion e w0
-        rcases hconc.2 _ hv with h | h
-        · rw [hc.2] at h; cases h
-        · exact h
-      · next hneg =>
-        simp at hconc
-        rw [if_neg hneg, hconc]
-        simp [LogicData.satV, hc.2]
-
-
 end Ptx
